@@ -25,6 +25,9 @@ type AdmitItem struct {
 	From  int    `json:"from"`
 	To    int    `json:"to"`
 	Pairs bool   `json:"pairs"`
+	// Reset > 0: the states are those of a hashgraph that was Reset (fast-sync) to block Reset-1 and its frame
+	// of a full instance of the base DAG, with From..To further events of the base inserted on top
+	Reset int `json:"reset,omitempty"`
 }
 
 type AdmitResult struct {
@@ -286,6 +289,53 @@ func init() {
 		if it.To > len(evs) {
 			it.To = len(evs)
 		}
+		// reset mode: anchor block + frame from a full instance, and the base events that can be inserted on top
+		var rblock *hg.Block
+		var rframe *hg.Frame
+		var post []int
+		resetInst := func() *dag.Inst {
+			in := dag.Open(n, false, "", 10000)
+			var b hg.Block
+			var f hg.Frame
+			jsonRoundTrip(rblock, &b)
+			jsonRoundTrip(rframe, &f)
+			if err := in.H.Reset(&b, &f); err != nil {
+				ev.Fail("admit: Reset failed: %v", err)
+			}
+			return in
+		}
+		if it.Reset > 0 {
+			full := dag.Open(n, false, "", 10000)
+			for i := range evs {
+				if err, _ := full.Insert(evs[i].Fresh()); err != nil {
+					ev.Fail("admit: base insertion failed: %v", err)
+				}
+			}
+			blk, err := full.N.Store.GetBlock(it.Reset - 1)
+			if err != nil {
+				full.Close()
+				return json.Marshal(res) // the base has no such block
+			}
+			fr, err := full.H.GetFrame(blk.RoundReceived())
+			if err != nil {
+				ev.Fail("admit: GetFrame: %v", err)
+			}
+			rblock, rframe = blk, fr
+			full.Close()
+			probe := resetInst()
+			for i := range evs {
+				if _, err := probe.N.Store.GetEvent(evs[i].Hex); err == nil {
+					continue
+				}
+				if err, _ := probe.Insert(evs[i].Fresh()); err == nil {
+					post = append(post, i)
+				}
+			}
+			probe.Close()
+			if it.To > len(post) {
+				it.To = len(post)
+			}
+		}
 		for L := it.From; L < it.To; L++ {
 			res.States++
 			var inst *dag.Inst
@@ -294,8 +344,28 @@ func init() {
 				if inst != nil {
 					inst.Close()
 				}
-				inst = dag.Open(n, false, "", 10000)
 				cx = &admitCtx{lastOf: map[string]string{}, byHash: map[string]*hg.Event{}}
+				if it.Reset > 0 {
+					inst = resetInst()
+					for i := range evs {
+						if se, err := inst.N.Store.GetEvent(evs[i].Hex); err == nil {
+							cx.byHash[evs[i].Hex] = se
+							cx.lastOf[se.Creator()] = evs[i].Hex
+							cx.order = append(cx.order, evs[i].Hex)
+						}
+					}
+					for _, i := range post[:L] {
+						e := evs[i].Fresh()
+						if err, _ := inst.Insert(e); err != nil {
+							ev.Fail("admit: insertion on top of the reset failed: %v", err)
+						}
+						cx.byHash[evs[i].Hex] = e
+						cx.lastOf[e.Creator()] = evs[i].Hex
+						cx.order = append(cx.order, evs[i].Hex)
+					}
+					return
+				}
+				inst = dag.Open(n, false, "", 10000)
 				for i := 0; i < L; i++ {
 					e := evs[i].Fresh()
 					if err, _ := inst.Insert(e); err != nil {
@@ -313,8 +383,15 @@ func init() {
 			}
 			// candidates: insertable next events + the last known events
 			var cands []dag.Ev
-			for i := L; i < len(evs); i++ {
+			start := L
+			if it.Reset > 0 {
+				start = 0
+			}
+			for i := start; i < len(evs); i++ {
 				e := evs[i]
+				if cx.byHash[e.Hex] != nil {
+					continue
+				}
 				okp := (e.Self == "" || cx.byHash[e.Self] != nil) && (e.Other == "" || cx.byHash[e.Other] != nil)
 				if okp && cx.lastOf[hexOf(e.Body.Creator)] == e.Self {
 					cands = append(cands, e)
@@ -323,14 +400,38 @@ func init() {
 					break
 				}
 			}
-			for i := L - 1; i >= 0 && i >= L-2; i-- {
-				cands = append(cands, evs[i])
+			if it.Reset > 0 {
+				for k := len(cx.order) - 1; k >= 0 && k >= len(cx.order)-2; k-- {
+					for i := range evs {
+						if evs[i].Hex == cx.order[k] {
+							cands = append(cands, evs[i])
+						}
+					}
+				}
+			} else {
+				for i := L - 1; i >= 0 && i >= L-2; i-- {
+					cands = append(cands, evs[i])
+				}
 			}
+			var attemptMode func(t *hg.Event, label string, cand dag.Ev, wire bool)
 			attempt := func(t *hg.Event, label string, cand dag.Ev) {
+				// a full event as a node inserts its own events (wire information computed by the
+				// hashgraph) and as core.sync inserts received ones (wire information taken as set)
+				t2 := &hg.Event{Body: copyBodyEv(t.Body), Signature: t.Signature}
+				attemptMode(t, label, cand, true)
+				attemptMode(t2, label+" {inserted as core.sync does}", cand, false)
+			}
+			attemptMode = func(t *hg.Event, label string, cand dag.Ev, wire bool) {
 				res.Attempts++
 				before := inst.StateDigest()
 				okAdm, why := admissible(t, cx, rep)
-				err, pan := inst.Insert(t)
+				var err error
+				var pan string
+				if wire {
+					err, pan = inst.Insert(t)
+				} else {
+					err, pan = inst.InsertNoWire(t)
+				}
 				rp := map[string]interface{}{"base": it.Base, "prefix": L, "candidate": fmt.Sprintf("%c%d", 'a'+cand.CreatorIdx, cand.Body.Index), "operators": label}
 				if pan != "" {
 					res.Panics++
@@ -348,7 +449,7 @@ func init() {
 					cx.byHash[t.Hex()] = t
 					cx.lastOf[t.Creator()] = t.Hex()
 					cx.order = append(cx.order, t.Hex())
-					if s := structural(inst, cx); s != "" {
+					if s := structural(inst, cx); s != "" && it.Reset == 0 {
 						addViol("structure-broken:"+label, fmt.Sprintf("%s prefix %d: after accepting (%s of %c%d): %s", it.Base, L, label, 'a'+cand.CreatorIdx, cand.Body.Index, s), rp)
 					}
 					build()
@@ -488,14 +589,32 @@ func init() {
 				}
 			}
 			// twin: the instance that saw all (rejected) attempts and a fresh one continue identically
-			twin := dag.Open(n, false, "", 10000)
+			var twin *dag.Inst
 			okc := true
-			for i := 0; i < L; i++ {
-				if err, _ := twin.Insert(evs[i].Fresh()); err != nil {
-					okc = false
+			cont := []int{}
+			if it.Reset > 0 {
+				twin = resetInst()
+				for _, i := range post[:L] {
+					if err, _ := twin.Insert(evs[i].Fresh()); err != nil {
+						okc = false
+					}
+				}
+				cont = post[L:]
+			} else {
+				twin = dag.Open(n, false, "", 10000)
+				for i := 0; i < L; i++ {
+					if err, _ := twin.Insert(evs[i].Fresh()); err != nil {
+						okc = false
+					}
+				}
+				for i := L; i < len(evs); i++ {
+					cont = append(cont, i)
 				}
 			}
-			for i := L; i < len(evs) && okc; i++ {
+			for _, i := range cont {
+				if !okc {
+					break
+				}
 				e1, _ := inst.Insert(evs[i].Fresh())
 				e2, _ := twin.Insert(evs[i].Fresh())
 				if (e1 == nil) != (e2 == nil) {
@@ -534,6 +653,12 @@ func init() {
 		for _, b := range bases {
 			for from := 0; from < 70; from += chunk {
 				items = append(items, AdmitItem{Base: b, From: from, To: from + chunk, Pairs: th})
+			}
+		}
+		// a hashgraph that was Reset to block 1 / 2 of the static n=3 history (fast-sync), 0..24 further events on top
+		for _, blk := range []int{1, 2} {
+			for from := 0; from < 24; from += chunk {
+				items = append(items, AdmitItem{Base: "static:3:45", From: from, To: from + chunk, Pairs: th, Reset: blk + 1})
 			}
 		}
 		raw := make([]json.RawMessage, len(items))
@@ -596,7 +721,7 @@ func init() {
 		cov["accepted_by_operator"] = tot.Verdicts
 		cov["exhaustive"] = handed == len(items)
 		cov["samples"] = samples
-		cov["rule"] = "states = every prefix of three base DAGs (static n=3 with blocks, static n=4, join 3->4 with a validator-set change) built in a real hashgraph; in each state the insertable next events and the last known events are submitted unmodified and under every operator of the catalogue (index, self-parent, other-parent, creator, signature, internal transactions, timestamp, payload; thorough: all pairs), each re-signed by the stated creator's key (a Byzantine validator) and with the signature left as is, plus wire-form attempts with unknown ids / dangling references. Oracle: accepted => the harness's own admission predicate holds and the structural invariants (gap-free per-creator indexes, no two events at one height) hold; rejected => a digest of participant listings, known map, last events, undetermined queue, rounds, fame, blocks is unchanged; after all attempts of a state the valid continuation gives identical consensus results on a twin that never saw them. distinct_nontrivial = distinct operator verdict classes + states"
+		cov["rule"] = "states = every prefix of three base DAGs (static n=3 with blocks, static n=4, join 3->4 with a validator-set change) built in a real hashgraph, plus a hashgraph Reset (fast-sync) to block 1 / block 2 of a static n=3 history with 0..23 further events on top; every attempt is made in both insertion modes (wire information computed by the hashgraph as for a node's own events; taken as already set, as core.sync inserts received events); in each state the insertable next events and the last known events are submitted unmodified and under every operator of the catalogue (index, self-parent, other-parent, creator, signature, internal transactions, timestamp, payload; thorough: all pairs), each re-signed by the stated creator's key (a Byzantine validator) and with the signature left as is, plus wire-form attempts with unknown ids / dangling references. Oracle: accepted => the harness's own admission predicate holds and the structural invariants (gap-free per-creator indexes, no two events at one height) hold; rejected => a digest of participant listings, known map, last events, undetermined queue, rounds, fame, blocks is unchanged; after all attempts of a state the valid continuation gives identical consensus results on a twin that never saw them. distinct_nontrivial = distinct operator verdict classes + states"
 		rep.Assumptions = []string{"completeness (valid events must be accepted) is not asserted", "a rejection by panic is counted here and is C08's subject"}
 		if tot.Accepted == 0 || tot.Rejected == 0 {
 			rep.Finish()
